@@ -35,6 +35,13 @@ func init() {
 }
 
 func runC02(c *an.Ctx) {
+	// ---- C02-R16: builder wiring of the components this property rests on
+	c.Floor("C02-R16", 8)
+	builderWiring(c, "C02-R16", map[string][]string{
+		"initDNS|dnssvc.HandlersConfig":                           {"FilterStorage", "FilteringGroups", "Messages", "EDEEnabled", "StructuredErrors"},
+		"initFilterStorage|filter/filterstorage.ConfigHashPrefix": nil,
+		"initMsgConstructor|dnsmsg.ConstructorConfig":             nil,
+	})
 	c02ListOrder(c)
 	// ---- R14: the hash-prefix verdict cache stores and hands out copies (a cached block page is not overwritten by pool reuse)
 	c.Floor("C02-R14", 4)
